@@ -91,7 +91,11 @@ Next == /\ ic = 0 /\ ia' = ia /\ ib' = ib /\ ic' \in 1 .. NG /\ id' \in 1 .. NG
         /\ PrintT(<<"CASE", ToJson([op |-> "segseg", a |-> GridSeq[ia], b |-> GridSeq[ib], c |-> GridSeq[ic'], d |-> GridSeq[id'],
                                    rel |-> Relation(GridSeq[ia], GridSeq[ib], GridSeq[ic'], GridSeq[id']),
                                    branch |-> Decide(GridSeq[ia], GridSeq[ib], GridSeq[ic'], GridSeq[id']).branch,
-                                   o1 |-> Orient(GridSeq[ia], GridSeq[ib], GridSeq[ic']), o2 |-> Orient(GridSeq[ia], GridSeq[ib], GridSeq[id'])])>>)
+                                   o1 |-> Orient(GridSeq[ia], GridSeq[ib], GridSeq[ic']), o2 |-> Orient(GridSeq[ia], GridSeq[ib], GridSeq[id']),
+                                   \* sign of the dot product (b - a) . (d - c) and the squared distance |a - c|^2 (kernel helpers)
+                                   dots |-> Sign((GridSeq[ib][1] - GridSeq[ia][1]) * (GridSeq[id'][1] - GridSeq[ic'][1])
+                                                 + (GridSeq[ib][2] - GridSeq[ia][2]) * (GridSeq[id'][2] - GridSeq[ic'][2])),
+                                   d2ac |-> D2(GridSeq[ia], GridSeq[ic'])])>>)
 Spec == Init /\ [][Next]_vars
 
 \* lemmas: the classification does not depend on the order of the two segments or on their
